@@ -126,6 +126,10 @@ def replay(job):
             if prog != exp['prog']:
                 return idx, ('resumable:progress', f"after {' ; '.join(done)}: the work directory holds {prog} chunk(s), the "
                                                    f"specification says {exp['prog']} (kept for continuation until finished)")
+            for oo, t in objs.items():      # has_data: a finished result is visible - whatever the object itself holds
+                if bool(t.has_data) != (exp['fin'] != 0):
+                    return idx, ('resumable:has-data', f"after {' ; '.join(done)}: object {oo} reports has_data={t.has_data}, a finished "
+                                                       f"result {'exists' if exp['fin'] else 'does not exist'}")
             if fin != exp['fin']:
                 return idx, ('resumable:finished', f"after {' ; '.join(done)}: the finished result is generation {fin}, the "
                                                    f"specification says {exp['fin']} (0 = none, -1 = not {N} chunks of one run)")
